@@ -844,6 +844,27 @@ def r9_autograd_functions(repo: Repo, rep):
                         and any(isinstance(x, ast.Name) and x.id in params and x.id != ctx for x in ast.walk(v))
                     n += 1
                     rep.check(R, not computed, fw.site(c), fw.fq, "context attributes hold arguments / plain settings, no tensor computed in forward", dump(c)[:80], f"{ci.name}: {dump(c)[:80]}")
+            # backward: a derivative factor that must vanish on part of the domain is set to zero by a mask there, not obtained as a power of the
+            # rectified input with a variable exponent (0 ** 0 = 1, 0 ** negative = inf)
+            bw = ci.methods.get("backward")
+            if bw is not None:
+                rep.saw(bw)
+                pows = []
+                for x in ast.walk(bw.node):
+                    base = expo = None
+                    if isinstance(x, ast.BinOp) and isinstance(x.op, ast.Pow):
+                        base, expo = x.left, x.right
+                    elif isinstance(x, ast.Call) and (attr_chain(x.func) or "").split(".")[-1] in ("pow", "float_power") and len(x.args) >= 1:
+                        base, expo = (x.args[0], x.args[1]) if (attr_chain(x.func) or "").startswith("torch.") and len(x.args) > 1 else (x.func.value if isinstance(x.func, ast.Attribute) else None, x.args[0])
+                    if base is None:
+                        continue
+                    rectified = any(isinstance(c, ast.Call) and (attr_chain(c.func) or "").split(".")[-1] in ("relu", "clamp", "clamp_min", "clip", "maximum") for c in ast.walk(base))
+                    const_ok = isinstance(expo, ast.Constant) and isinstance(expo.value, (int, float)) and expo.value >= 1
+                    if rectified and not const_ok:
+                        pows.append(dump(x)[:70])
+                n += 1
+                rep.check(R, not pows, bw.site(), bw.fq, "no power of a rectified (possibly exactly zero) value with a variable exponent in the backward pass", f"{pows}: 0 ** 0 = 1 and 0 ** (negative) = inf on the rectified part",
+                          f"{ci.name}.backward: {pows}")
     # nested classes (e.g. GradReverse inside a model class) hold no state; they are listed by the class scan of their module when top-level only
     if n == 0:
         rep.undecided(R, "src/torchphysics", "-", "autograd Functions with saved state", "none found")
